@@ -2,9 +2,13 @@ use crate::engine::PropDyn;
 
 pub mod c01;
 pub mod c02;
+pub mod c03;
+pub mod c04;
+pub mod c05;
 pub mod c11;
 pub mod c12;
 pub mod c13;
+pub mod c14;
 pub mod c15;
 pub mod c16;
 pub mod c18;
@@ -13,9 +17,13 @@ pub fn all() -> Vec<Box<dyn PropDyn>> {
     vec![
         Box::new(c01::prop()),
         Box::new(c02::prop()),
+        Box::new(c03::prop()),
+        Box::new(c04::prop()),
+        Box::new(c05::prop()),
         Box::new(c11::prop()),
         Box::new(c12::prop()),
         Box::new(c13::prop()),
+        Box::new(c14::prop()),
         Box::new(c15::prop()),
         Box::new(c16::prop()),
         Box::new(c18::prop()),
